@@ -198,6 +198,7 @@ def write_evidence(mod, pid, tier, base, total, wall, nviol):
             'oracle_comparisons': int(total['oracle_checks']),
             'distinct_interleavings': len(total['shapes']),
             'distinct_abstract_states': len(total['states']),
+            'abstract_state_measure': getattr(mod, 'STATE_MEASURE', ''),
             'fault_fires': dict(total['faults']),
             'probes': probes,
             'probes_stuck_at_zero': zero,
